@@ -15,7 +15,8 @@ META = {
                    'expressions as set; (3) the tree is reset before a new thread is published, lives in the descriptor and '
                    'get/setspecific address the current thread\'s tree; (4) a key is marked in use when handed out and delete '
                    'accepts only marked keys; (5) every pop of a shared free list either runs in a lock region or has a single '
-                   'popper (no ABA).',
+                   'popper (no ABA).'
+                   ' C10.6 (open finding D18): get does not validate a slot against the incarnation of the key, so an index reused after delete exposes the old value.',
     'not_decided': 'value privacy under all interleavings of create/delete/set/get histories (only the structural index '
                    'discipline and the allocator\'s locking are decided)',
     'assumptions': ['keys are small integers handed out by myth_key_create'],
